@@ -100,6 +100,7 @@ type wConc struct {
 	Wrap     []bool   `json:"wrap"` // a direction's sequence numbers wrap inside the conversation
 	Fragmented int    `json:"fragmented"` // packets written as two IP fragments
 	Shuffled  bool    `json:"shuffled"` // packets of a file not written in timestamp order
+	Overlap   bool    `json:"overlap"`  // capture files overlap in time (some packets are in the next file: a second capture point)
 	SameHosts bool    `json:"sameHosts"` // all conversations between one pair of hosts, ports with equal XOR (one reassembler bucket)
 }
 
@@ -189,6 +190,7 @@ type wWorld struct {
 	names   []string // names[file-1]
 	tuples  map[string]int
 	oneShot map[string][]wStream
+	moved   map[int]int // Overlap variant: wire index -> the capture file the packet was recorded in
 	mu      sync.Mutex
 }
 
@@ -394,6 +396,16 @@ func wBuildWorld(s *wSchedule, stage string, bulkGoal int) (*wWorld, error) {
 		hasBulk = hasBulk || p.K == "bulk"
 	}
 	w.conc.Shuffled = !hasBulk && (int64(s.Sid)+seed)%4 == 2
+	// Overlap variant (every second shuffled schedule): a packet may be recorded in the following capture file instead
+	// (two capture points with different rotation times), so the time ranges of the files overlap.  Only packets whose
+	// timestamp is unique move: the order of packets with equal timestamps is given by file and position.
+	// (not in the worlds of C08: spec/Import.tla predicts the added / updated / reset streams of an import from the time
+	// ranges of the files and assumes that files do not overlap)
+	w.conc.Overlap = w.conc.Shuffled && (int64(s.Sid)+seed)%8 == 2 && !strings.HasPrefix(s.Regime, "world")
+	atCount := map[int64]int{}
+	for _, p := range s.Wire {
+		atCount[p.At]++
+	}
 	type heldPkt struct {
 		at   time.Time
 		data []byte
@@ -569,8 +581,18 @@ func wBuildWorld(s *wSchedule, stage string, bulkGoal int) (*wWorld, error) {
 				sinceBoundary++
 			}
 			sinceBoundary--
-		} else if err := write(p.File, at, data); err != nil {
-			return nil, err
+		} else {
+			file := p.File
+			if w.conc.Overlap && file < s.NFiles && atCount[p.At] == 1 && rng.Intn(3) == 0 {
+				file++
+				if w.moved == nil {
+					w.moved = map[int]int{}
+				}
+				w.moved[wi] = file
+			}
+			if err := write(file, at, data); err != nil {
+				return nil, err
+			}
 		}
 		sinceBoundary++
 		prevAt = p.At
@@ -1061,6 +1083,9 @@ func TestVerifWire(t *testing.T) {
 				}
 			}
 			for _, s := range ss {
+				for wi, file := range w.moved { // (the specification judges partial imports by the file of every packet)
+					s.Wire[wi].File = file
+				}
 				rows := []*wRow{{Sid: s.Sid, N: 0, Sched: s, Conc: &w.conc, Files: []int{}, Imported: []int{},
 					Vis: []wStream{}, One: []wStream{}, Add: []int{}, Upd: []int{}, Rst: []int{}, Restart: "none"}}
 				err := w.run(scratch, s, func(r *wRow) { rows = append(rows, r) })
